@@ -21,39 +21,50 @@ def showM3I (m : M3 Int) : String := showInts (m.r0.toList ++ m.r1.toList ++ m.r
 
 def parallelI (a b : IV) : Bool := V3.cross a b == (⟨0, 0, 0⟩ : IV)
 
+/-- scale a rational cell to integers: `(D, D • vects)` with `D` the lcm of the denominators.  Every
+    comparison of the routine is homogeneous in the cell, so the model run at `K := Int` on `D • vects`
+    takes exactly the decisions of the run at `K := Rat` on `vects` (cross-checked by `fsbq`). -/
+def scaleInt (vects : M3 Rat) : Nat × M3 Int :=
+  let D := vects.toList.foldl (fun d (x : Rat) => Nat.lcm d x.den) 1
+  let f := fun (x : Rat) => (x * (D : Rat)).num
+  (D, ⟨⟨f vects.r0.x, f vects.r0.y, f vects.r0.z⟩, ⟨f vects.r1.x, f vects.r1.y, f vects.r1.z⟩,
+       ⟨f vects.r2.x, f vects.r2.y, f vects.r2.z⟩⟩)
+
 /-- margin flags of one run of the routine: `aNear aExact bNear bExact cTie`.
-    near = a competing candidate differs by less than the relative margin but is not equal;
-    exact = an exactly tied competitor other than the winner (and, for `a`, its negative). -/
-def marginFlags (vects : M3 Rat) (r : ABC Rat) (cb : IV) : List Bool :=
-  let cands := genVectors r.n
-  let m2 := fun v => V3.normSq (cart vects v)
-  let dn := fun v => V3.dot (cart vects v) r.pn
-  let inpl := cands.filter (fun v => decide (inPlane vects r.pn v))
-  let ma := m2 r.a
-  let aNear := inpl.any (fun v => m2 v ≠ ma && decide (m2 v < ma * (1 + 1/1000)) && decide (ma < m2 v * (1 + 1/1000)))
-  let aExact := inpl.any (fun v => m2 v == ma && v != r.a && v != -r.a)
+    near = a competing candidate differs by less than the relative margin (1e-3 on squared lengths,
+    1e-8 on squared cosines) but is not equal; exact = an exactly tied competitor other than the winner
+    (and, for `a`, its negative). -/
+def marginFlags (vects : M3 Int) (r : ABC Int) (cb : IV) : List Bool :=
+  let data := (genVectors r.n).map (fun v =>
+    let ct := cart vects v
+    (v, V3.normSq ct, V3.dot ct r.pn, ct))
+  let near := fun (x y : Int) => x ≠ y && decide (x * 1000 < y * 1001) && decide (y * 1000 < x * 1001)
+  let inpl := data.filter (fun t => t.2.2.1 == 0)
   let aC := cart vects r.a
-  let bc := cands.filter (fun v => decide (bFilter vects r.pn aC v))
-  let mb := m2 r.b
-  let bNear := bc.any (fun v => m2 v ≠ mb && decide (m2 v < mb * (1 + 1/1000)) && decide (mb < m2 v * (1 + 1/1000)))
-  let bExact := bc.any (fun v => m2 v == mb && v != r.b)
-  let dc := dn cb; let mc := m2 cb
-  let cTie := cands.any (fun v => decide (0 < dn v) && !parallelI v cb &&
-    decide (dc * dc * m2 v * (1 - 1/100000000) < dn v * dn v * mc))
-  -- initial bounds: a candidate within the margin of |[n,n,n]| makes `mag < a_mag` float-dependent
-  let bound := m2 ⟨r.n, r.n, r.n⟩
-  let nearBound := fun (m : Rat) => decide (bound < m * (1 + 1/1000)) && decide (m < bound * (1 + 1/1000))
-  [aNear || nearBound ma, aExact, bNear || nearBound mb, bExact, cTie]
+  let ma := V3.normSq aC
+  let aNear := inpl.any (fun t => near t.2.1 ma)
+  let aExact := inpl.any (fun t => t.2.1 == ma && t.1 != r.a && t.1 != -r.a)
+  let bc := inpl.filter (fun t => decide (0 < V3.dot (V3.cross aC t.2.2.2) r.pn))
+  let mb := V3.normSq (cart vects r.b)
+  let bNear := bc.any (fun t => near t.2.1 mb)
+  let bExact := bc.any (fun t => t.2.1 == mb && t.1 != r.b)
+  let ctc := cart vects cb
+  let dc := V3.dot ctc r.pn; let mc := V3.normSq ctc
+  let cTie := data.any (fun t => decide (0 < t.2.2.1) && !parallelI t.1 cb &&
+    decide (dc * dc * t.2.1 * 99999999 < t.2.2.1 * t.2.2.1 * mc * 100000000))
+  let bound := V3.normSq (cart vects ⟨r.n, r.n, r.n⟩)
+  [aNear || near ma bound || ma == bound, aExact, bNear || near mb bound, bExact, cTie]
 
 /-- the raw (unreduced) winner of the first search, needed for the tie flags. -/
-def rawC (vects : M3 Rat) (r : ABC Rat) : IV :=
+def rawC {K : Type} [Add K] [Sub K] [Mul K] [Zero K] [IntCast K] [LT K] [DecidableLT K] [DecidableEq K]
+    (vects : M3 K) (r : ABC K) : IV :=
   match (search1 vects r.pn r.n).c with
   | some cb => cb.v
   | none => r.c
 
 def hexTol : Rat := 1 / 10000000
 
-def handleFsb (cut setting nS rhS kS : String) (rest : List String) : String :=
+def handleFsb (useRat : Bool) (cut setting nS rhS kS : String) (rest : List String) : String :=
   match Cut.ofString? cut, optInt? nS, kS.toNat? with
   | some cut, some nOpt, some k =>
     if k ≠ 3 ∧ k ≠ 4 then err "value" else
@@ -80,16 +91,25 @@ def handleFsb (cut setting nS rhS kS : String) (rest : List String) : String :=
         | .error e, _ => err e
         | _, none => err "value"
         | .ok (hkl, rh), some L =>
-          match basisABC vects hkl L nOpt with
-          | .error e => err e
-          | .ok r =>
-            let uv := orderRows cut r.a r.b r.c
-            let flags := marginFlags vects r (rawC vects r)
+          let render := fun (a b c : IV) (pn : V3 Rat) (n : Int) (flags : List Bool) =>
+            let uv := orderRows cut a b c
             let body := if rh then
                 "4 " ++ showRats (vector3to4 uv.r0 ++ vector3to4 uv.r1 ++ vector3to4 uv.r2)
               else "3 " ++ showM3I uv
-            "ok " ++ body ++ " ; " ++ showM3I uv ++ " ; " ++ showV r.pn ++ " ; " ++ toString r.n ++ " ; " ++
+            "ok " ++ body ++ " ; " ++ showM3I uv ++ " ; " ++ showV pn ++ " ; " ++ toString n ++ " ; " ++
               " ".intercalate (flags.map showBool)
+          if useRat then
+            match basisABC vects hkl L nOpt with
+            | .error e => err e
+            | .ok r => render r.a r.b r.c r.pn r.n []
+          else
+            let (D, vi) := scaleInt vects
+            match basisABC vi hkl L nOpt with
+            | .error e => err e
+            | .ok r =>
+              let d2 : Rat := ((D * D : Nat) : Rat)
+              let pn : V3 Rat := ⟨(r.pn.x : Rat) / d2, (r.pn.y : Rat) / d2, (r.pn.z : Rat) / d2⟩
+              render r.a r.b r.c pn r.n (marginFlags vi r (rawC vi r))
     | _, _ => err "format"
   | _, _, _ => err "format"
 
@@ -100,7 +120,7 @@ def handleValid (cut setting nS : String) (rest : List String) : String :=
     | some [h, k, l], some vs, some us, _ =>
       match M3.ofList? vs, m3i? (us.take 9), us.drop 9 with
       | some vects, some uvws, [tn, td] =>
-        Rel.validBasis vects ⟨h, k, l⟩ L cut nOpt uvws (mkRat tn td.toNat)
+        Rel.validBasis (scaleInt vects).2 ⟨h, k, l⟩ L cut nOpt uvws tn td
       | _, _, _ => err "format"
     | _, _, _, _ => err "format"
   | _, _, _ => err "format"
@@ -126,7 +146,8 @@ def handleC14 (toks : List String) : String :=
     | some L, some [u, v, w] => showV (p2cRat L ⟨u, v, w⟩)
     | none, _ => err "value"
     | _, _ => err "format"
-  | "fsb" :: cut :: setting :: nS :: rhS :: kS :: rest => handleFsb cut setting nS rhS kS rest
+  | "fsb" :: cut :: setting :: nS :: rhS :: kS :: rest => handleFsb false cut setting nS rhS kS rest
+  | "fsbq" :: cut :: setting :: nS :: rhS :: kS :: rest => handleFsb true cut setting nS rhS kS rest
   | "valid" :: cut :: setting :: nS :: rest => handleValid cut setting nS rest
   | "init" :: rest =>
     match parseInts? rest with
